@@ -51,6 +51,8 @@ pub trait Maker {
     fn vec_make(&self, n: u32) -> CVec<u64>;
     fn vec_grow(&self, v: CVec<u64>, n: u32) -> CVec<u64>;
     fn vec_consume(&self, v: CVec<u64>) -> u64;
+    /// clone a vector (whoever made it) inside this module
+    fn vec_clone(&self, v: &CVec<u64>) -> CVec<u64>;
     fn arc_make(&self, v: u64) -> CArc<Blob>;
     fn arc_read(&self, a: CArc<Blob>) -> u64;
     fn boxed(&self, v: u64) -> CBox<'static, Blob>;
@@ -188,6 +190,9 @@ impl Maker for MakerImp {
     }
     fn vec_consume(&self, v: CVec<u64>) -> u64 {
         v.iter().fold(self.seed, |a, x| mixv(a, *x))
+    }
+    fn vec_clone(&self, v: &CVec<u64>) -> CVec<u64> {
+        v.clone()
     }
     fn arc_make(&self, v: u64) -> CArc<Blob> {
         CArc::from(Blob::new(mixv(self.seed, v)))
